@@ -54,7 +54,7 @@ func vAutCase(c *vCtx, evkp EvaluationKeyParameters, galEl uint64, level int, ta
 	out := NewCiphertext(params, 1, level)
 	vAssert(eval.Automorphism(ct, galEl, out) == nil, tag+"-Automorphism-no-error")
 	got := vDecrypt(c, c.Dec, out)
-	vAssertNoiseFree(r, got.Value, want, params.NTTFlag(), 40, tag+"-Automorphism-decrypts-to-sigma-of-the-plaintext")
+	vAssertNoiseFree(r, got.Value, want, params.NTTFlag(), vNoiseBound(c, evkp), tag+"-Automorphism-decrypts-to-sigma-of-the-plaintext")
 	if gk.LevelP() < 0 {
 		return
 	}
